@@ -141,7 +141,7 @@ impl Outcome {
     }
 }
 
-fn caught_to_outcome(phase: &'static str, c: Caught) -> Outcome {
+pub fn caught_to_outcome(phase: &'static str, c: Caught) -> Outcome {
     match c {
         Caught::Panic { msg, loc } => Outcome::Panic { phase, msg, loc },
         Caught::Abort(w) => Outcome::Aborted(w),
